@@ -567,9 +567,7 @@ Fixpoint doubling (k : nat) (n : N) : list sdef :=
 Definition doubling_witness : list sdef := (99, [TStruct 29; TPrim PU8]) :: doubling 29 29.
 Lemma doubling_witness_facts :
   compute_layouts true doubling_witness = Fail EOverflow /\
-  (exists offs m, compute_layouts false doubling_witness = Ok (offs, m) /\ nth_error offs 0 = Some (Some [0; 0])) /\
-  c_struct 40 doubling_witness [TStruct 29; TPrim PU8] = Some ([0; 4294967296], 4294967304, 8).
-Proof.
-  split; [vm_compute; reflexivity|]. split; [|vm_compute; reflexivity].
-  eexists. eexists. split; [vm_compute; reflexivity|reflexivity].
-Qed.
+  bind (compute_layouts false doubling_witness)
+       (fun r => Ok (nth_error (fst r) 0, rlookup (snd r) 28, rlookup (snd r) 29))
+  = Ok (Some (Some [0; 0]), Some (2147483648, 8), Some (0, 8)).
+Proof. split; vm_compute; reflexivity. Qed.
